@@ -18,6 +18,10 @@ claimed = {
    note="Trusted: reference model; GC invoked through the DB's own garbageCollect pass in-package. Runs that perform a delete with a bound inside a rolled-over domain (recorded known finding) are attributed to it.",
    tech=TECH+": seeded op-tier scripts on simulated disk and clock, reference-model oracle after every step, rapid shrinking"),
 }
+claimed["C10"] = dict(engine="cesium-seq", cat="exploration", ref="DESIGN.md §5 C10",
+   text="Seeded command sequences (SeekFirst/SeekLast/SeekLE/SeekGE, Next/Prev with spans from 1ns to the maximum, auto-span steps with chunk sizes 1-7, SetBounds) on the per-channel iterator over layouts built by C01/C04 scripts (multi-domain, rollover, out-of-order, deletes, GC). After every judged step: returned samples == reference samples inside the REPORTED view, adjacent views in one direction, chunk bound, exactly-once and completeness of SeekFirst/SeekLast-started traversals.",
+   note="Steps after a failed seek are not judged; seek targets are clamped into the bounds. Auto-span steps and fixed-span steps of walks that reversed direction are attributed to two recorded known findings (see known_findings.json); monotone fixed-span walks are judged strictly.",
+   tech=TECH+": seeded op-tier command sequences against a reference model using the iterator's reported view, rapid shrinking, replay files")
 not_applicable = {
  "C19": "Pure function of (source, arguments): the Arc compiler/analyzer/wazero call path has no goroutines, timers, I/O, transport or storage for a scheduler, clock or fault injector to act on; generating programs would be input generation in simulator costume (DESIGN.md §1).",
 }
@@ -53,7 +57,7 @@ m = {
   "add_only": True,
  },
  "engines": [
-  {"name": "cesium-seq", "path": "/verif/harness/cesium", "serves_properties": ["C01", "C04"], "kind_free_text": "op-tier deterministic simulation of real cesium on simfs + virtual clock"},
+  {"name": "cesium-seq", "path": "/verif/harness/cesium", "serves_properties": ["C01", "C04", "C10"], "kind_free_text": "op-tier deterministic simulation of real cesium on simfs + virtual clock"},
   {"name": "cesium-crash", "path": "/verif/harness/cesium/zz_verif_c02_test.go", "serves_properties": ["C02"], "kind_free_text": "crash-point enumeration over the simulated disk's mutation log"},
  ],
  "checks": checks,
